@@ -3,6 +3,7 @@ from .common import jobs_for
 LEVEL = 'proof'
 LEVEL_TEXT = 'the real solvePDE is traced on real CellVariable/BoundaryConditions objects with symbolic contents and a recording solver: every row of the system handed to the solver is proved equal to boundary row + sum of the (negated/scaled) matrix, vector and pair terms for an arbitrary field; same object returned, one solver call, interior = reshaped solver output, ghosts satisfy the BCs; accumulation loop invariant checked on the loop body extracted from the current source for every kind of term (so any list length/order); builders contribute only interior rows; solveMatrixPDE hands the given system to the given solver; unknown terms raise TypeError'
 LEVEL_NOTE = 'spsolve / external solver is an uninterpreted function of the identical (M, RHS) (A4); linear dependence of the solution on sources, boundary data and old values follows from the row identity (M free of them, RHS additive) plus non-singularity (assumed)'
+NOT_MACHINE_CHECKED = ['non-singularity of the assembled system (precondition of uniqueness, A4); linear dependence of the SOLUTION on sources / boundary data / old values follows from the proved structure (M free of them, RHS additive) with the Lean lemma unique_solution, correspondence by inspection']
 MODULES = ['contracts.solver', 'contracts.ops', 'contracts.bc', 'contracts.mesh']
 TRUSTED = ['A1', 'A2', 'A4', 'A5', 'A6', 'UF']
 
